@@ -931,8 +931,19 @@ func (fc *FnCtx) verify() {
 		fr.prefix = fc.prefixOverride
 	}
 	var args []Val
+	var outerVal Val
 	for i, p := range fn.Params {
 		v := fc.freshVal(st, p.Type(), "p_"+p.Name())
+		if i == 0 && fc.conformOuter != nil && fn.Signature.Recv() != nil {
+			// the receiver is the embedded struct INSIDE an object of the implementing type
+			outerVal = fc.freshVal(st, types.NewPointer(fc.conformOuter), "p_outer")
+			fc.sc.assume(tNot(tEq(outerVal.A.Base, "0")))
+			fc.nonNil[outerVal.A.Base] = true
+			a := *outerVal.A
+			a.Path = append([]int{}, fc.conformOuterPath...)
+			a.T = p.Type().Underlying().(*types.Pointer).Elem()
+			v = Val{K: KAddr, T: p.Type(), A: &a}
+		}
 		fr.vals[p] = v
 		args = append(args, v)
 		if v.K == KAddr && v.A.Kind == AObj && (con == nil || !con.nilable(p.Name(), i == 0 && fn.Signature.Recv() != nil)) {
@@ -949,6 +960,9 @@ func (fc *FnCtx) verify() {
 	if fc.conformIface && len(args) > 0 && con.Decl != nil && con.Decl.Recv != nil {
 		// `self` of the interface contract is the receiver seen through the interface
 		self := args[0]
+		if outerVal.K == KAddr {
+			self = outerVal
+		}
 		if self.K != KIface {
 			if it := fc.eng.ifaceTypeOf(con); it != nil {
 				self = fc.makeIface(st, self, it)
